@@ -32,11 +32,25 @@ class Unpicklable(object):
         return isinstance(other, Unpicklable)
 
 
+def _has_mainthing():
+    import sys
+    return getattr(sys.modules.get('__main__'), 'MainThing', None) is not None
+
+
 def _gen():
     yield 1
 
 
+def _mainthing():
+    import sys
+    cls = getattr(sys.modules.get('__main__'), 'MainThing', None)
+    if cls is None:
+        raise ValueError('no MainThing in __main__')
+    return cls(3)
+
+
 SPECIAL = {
+    'mainthing': _mainthing,
     'badrepr': BadRepr,
     'unpicklable': Unpicklable,
     'generator': _gen,
@@ -86,6 +100,8 @@ def enc(v):
         return {'$fs': sorted((enc(x) for x in v), key=repr)}
     if isinstance(v, set):
         return {'$s': sorted((enc(x) for x in v), key=repr)}
+    if type(v).__name__ == 'MainThing' and type(v).__module__ == '__main__':
+        return {'$o': 'mainthing'} if _has_mainthing() else {'$r': repr(v)}
     if isinstance(v, BadRepr):
         return {'$o': 'badrepr'}
     if isinstance(v, Unpicklable):
